@@ -4,11 +4,12 @@ and the property judges need), case generators, and an independent executable re
 property predicates (used only to classify a model/implementation disagreement)."""
 import os
 
-# While F12 is open (MsgPack array scope does not advance its index when an element is skipped, C05)
-# an array element that "fails to load without throwing" desynchronises the MsgPack reader, which is
-# outside the abstraction of the arch model (every Serialize consumes exactly one element document).
-# Such documents are generated for JSON/CSV only.  Flip when F12 is fixed in /repo.
-MSGPACK_ARRAY_ELEMENT_MAY_SKIP = False
+# F12 (MsgPack array scope did not advance its index when an element was skipped, C05) was fixed in
+# /repo by 19b4852; before that an array element that "fails to load without throwing" desynchronised
+# the MsgPack reader, which is outside the abstraction of the arch model (every Serialize consumes
+# exactly one element document), and such documents were generated for JSON/CSV only.  Set to False
+# to restrict the MsgPack generators again.
+MSGPACK_ARRAY_ELEMENT_MAY_SKIP = True
 
 INT_MIN, INT_MAX = -2147483648, 2147483647
 
@@ -813,6 +814,8 @@ def judge_c17(line, impl_out):
     else:
         if len(got) > mx:
             return "FAIL", "%d paths reported with maxValidationErrors=%d" % (len(got), mx)
+        if len(got) < min(mx, len(exp)):
+            return "FAIL", "%d paths reported with maxValidationErrors=%d although %d paths fail" % (len(got), mx, len(exp))
     return "HOLD", "report agrees with the documented rules"
 
 
